@@ -234,7 +234,7 @@ func (m modelVals) int(path string) (int64, bool) {
 
 func (eng *Engine) replay(o *Obligation, work string) *replayResult {
 	fx := o.fx
-	if len(fx.stack) > 0 {
+	if fx == nil || len(fx.stack) > 0 {
 		return nil
 	}
 	rp := &replayResult{}
@@ -396,6 +396,13 @@ func (g *gen) expr(path string, t types.Type, depth int) (string, error) {
 			v, ok := g.vals[path]
 			if !ok {
 				return g.typeStr(t) + "(0)", nil
+			}
+			if it, okT := intTyOf(u); okT && (v.Cmp(it.min()) < 0 || v.Cmp(it.max()) > 0) {
+				// a value the model left unconstrained (outside what the function reads): any in-range value does
+				v = new(big.Int).Mod(v, pow2(it.bits))
+				if it.signed && v.Cmp(it.max()) > 0 {
+					v.Sub(v, pow2(it.bits))
+				}
 			}
 			if it, _ := intTyOf(u); !it.signed && v.Sign() >= 0 || v.IsInt64() {
 				return fmt.Sprintf("%s(%s)", g.typeStr(t), v.String()), nil
